@@ -108,6 +108,21 @@ def family(chk, F, fam, exact, withp, full, policy):
                "max_by_key", "min_by", "min_by_key", "last", "rposition", "rfind", "max", "min", "fold", "reduce", "rfold", "filter",
                "collect", "skip", "skip_while", "take", "step_by", "chain", "cycle", "zip", "next_back", "nth", "nth_back", "pop", "rsplit"}
     reorder = sorted(set(p for p in ext if p.split("::")[-1] in REORDER or "BinaryHeap" in p or "HashMap" in p or "HashSet" in p))
+    # what decides which prefix is tried first is the iterator that drives the loop the prefixed lookups sit in: only adaptors on
+    # *that* iterator reorder the trial (another pass over the table - choosing among equal-valued prefixes which name to show,
+    # say, with `fold` in a helper - does not)
+    drivers = [(nb, t_) for nb, t_ in fn.calls() if "callee" in t_ and t_["callee"]["path"].endswith("Iterator>::next") and t_["args"]
+               and any(fn.dominates(nb, b) for b in second)]
+    if drivers:
+        on_chain = set()
+        for nb, t_ in drivers:
+            on_chain |= set(ap_calls(fn.apath(t_["args"][0])))
+        # closures that run a lookup stage themselves are part of the trial order as well
+        for c in closures:
+            if calls_to(c, exact):
+                on_chain |= set(t_["callee"]["path"] for _, t_ in c.calls() if "callee" in t_ and t_["callee"]["crate"] not in ("rink_core",))
+        hashy = [p for p in ext if "BinaryHeap" in p or "HashMap" in p or "HashSet" in p]
+        reorder = sorted(set(p for p in on_chain if p.split("::")[-1] in REORDER) | set(hashy))
     pol["reordering-adaptors"] = ",".join(x.split("::")[-1] for x in reorder)
     # iteration source
     src = None
@@ -202,7 +217,8 @@ def strips_s(fn, c2, t2, F=None):
     import facts as _f
     F = F or _f.CURRENT
     s2 = ap_str(fn.apath(name_op(F, t2)))
-    if ("strip_suffix(arg%d, " % name_param(fn)) in s2 and "as Some" in s2:
+    # `name.strip_suffix('s')` taken on its Some side: `if let Some(x)`, or `x?` inside a closure / function returning Option
+    if ("strip_suffix(arg%d, " % name_param(fn)) in s2 and ("as Some" in s2 or ("Try>::branch(" in s2 and "as Continue" in s2)):
         return True
     # name[0..len-1] guarded by ends_with('s')
     gs = [fn.guard_desc(g) for g in fn.guards_of(c2)]
